@@ -23,5 +23,10 @@ def main(path):
         viol = out.get("violations") or [v for s in out.get("scripts", []) for v in s.get("violations", [])]
         print("reproduced" if viol else "not reproduced", json.dumps(viol)[:2000])
         return 1 if viol else 0
+    if kind in ("trace_rejected", "trace_invariant"):
+        ctx = common.Ctx("replay", "quick", "replay")     # own scratch directory: a check's work directory is left alone
+        ok, where, tres = ctx.validate_trace(r["module"], r["trace"], "replay_trace", r["constants"], invariants=r.get("invariants", ()))
+        print("reproduced: " + (where or f"invariant {tres['invariant']}") if not ok else "not reproduced: the stored run is accepted")
+        return 0 if ok else 1
     print("no automatic replay for this kind; the file contains the failing input and trace")
     return 0
